@@ -222,10 +222,16 @@ func freePort() (int, error) {
 	return l.Addr().(*net.TCPAddr).Port, nil
 }
 
-// QuietConfig returns cfg with both scheduler loggers disabled.
+// QuietConfig returns cfg with both scheduler loggers disabled and a generous
+// (wall-clock) handshake timeout.
 func QuietConfig(cfg scheduler.Config) scheduler.Config {
 	cfg.Log = klog.Config{Disable: true}
 	cfg.TorrentLog = klog.Config{Disable: true}
+	if cfg.Conn.HandshakeTimeout == 0 {
+		// Real-time socket deadline: on a loaded machine the 5 s default expires,
+		// and with a mock clock nothing would ever retry the connection.
+		cfg.Conn.HandshakeTimeout = 2 * time.Minute
+	}
 	return cfg
 }
 
